@@ -164,6 +164,12 @@ NOT_PROBES = {'A.eval_instr eax=eax+1 (documented state change)', 'setdstflow on
               'A.eval eax (bound)', 'A.eval shared eax+ebx'}
 
 
+# depth-3 histories (thorough) are built from the alphabet without these near-duplicates of other calls; every call stays a probe
+DEPTH3_DROP = {'dis 0f6fc1', 'dis 8d00 (lea)', 'dis ec (r_dx row)', 'asm shl eax, cl', 'asm add DWORD PTR [ebp-8], 3', 'asm mov eax, ] (raises)',
+               'asm_att in (%dx), %al', 'lift push eax', 'lift mov ah,ah', 'simp shared compose of slices', 'C.eval shared @32[0x404000] (bound)',
+               'emul mov ecx,2; rep stosb', 'dis 668b4510 (same ModRM as held 8b4508)', 'held f3a5 (rep movsd)', 'dis 0f58c1 (same row as held f20f58c1)'}
+
+
 def run_call(c, idx):
     name, f = CALLS[idx]
     try:
@@ -330,8 +336,9 @@ def shard(s, ns, tier, seed):
     part.fps = {(): base_fp}
     part.fails = []
     k = 0
+    deep = [i for i, (n, f) in enumerate(CALLS) if n not in DEPTH3_DROP]
     for d in range(1, depth + 1):
-        for hist in itertools.product(range(len(CALLS)), repeat=d):
+        for hist in itertools.product(range(len(CALLS)) if d < 3 else deep, repeat=d):
             k += 1
             if k % ns != s:
                 continue
@@ -353,9 +360,11 @@ def shard(s, ns, tier, seed):
                 if CALLS[i][0] in NOT_PROBES:
                     continue
                 if i in first and first[i] != o and not any(CALLS[j][0] in NOT_PROBES for j in hist[:pos]):
-                    part.violation('probe=[%s] after=[%s]' % (CALLS[i][0], ' ; '.join(CALLS[j][0] for j in hist[:pos])),
-                                   'call %r returned %s and later %s within one history' % (CALLS[i][0], first[i][:100], o[:100]),
-                                   {'history': list(hist[:pos]), 'probe': i}, size=pos)
+                    # named by the calls between the two occurrences (the call's own first occurrence is not the cause)
+                    between = [j for j in hist[:pos] if j != i]
+                    part.violation('probe=[%s] after=[%s]' % (CALLS[i][0], ' ; '.join(CALLS[j][0] for j in between)),
+                                   'call %r returned %s and later %s within one history %s' % (CALLS[i][0], first[i][:100], o[:100], [CALLS[j][0] for j in hist[:pos]]),
+                                   {'history': list(between), 'probe': i}, size=pos)
                 first.setdefault(i, o)
     return part
 
@@ -744,10 +753,10 @@ def run(tier, seed):
     depth = 2 if tier == 'quick' else 3
     rule = ('history exploration: alphabet of %d API calls (dis, asm, asm_att incl. raising ones, lift, expr_simp / eval_expr on expressions built on '
             'the module-level register singletons and shared between calls, eval on machines with bound/absent registers and memory, emulation, '
-            'eval_instr); ALL histories of length 1..%d, each run in a forked child of a pristine image; after the history each of the %d probes runs '
+            'eval_instr, instruction objects held across calls); ALL histories of length 1..%d (thorough: length 3 over the alphabet without 15 near-duplicate calls), each run in a forked child of a pristine image; after the history each of the %d probes runs '
             'in its own grand-child and must equal its pristine result; a call repeated within a history must repeat its result. states = distinct '
             'hidden-state fingerprints (instruction/register tables, memo flags on module-level expressions, sys.path), new fingerprints per '
-            'depth = %s. input immutability: %d expression trees x 6 APIs, instruction objects, machine states. cache configurations: %s, each in a '
+            'depth = %s. assembler call pairs: every ordered pair of a 269-line alphabet in which differently treated mnemonics share operand text, second call against its pristine result. input immutability (incl. the address object handed to the lifter): %d expression trees x 6 APIs, instruction objects, machine states. cache configurations: %s, each in a '
             'fresh process with its own TMPDIR, compared on %d corpus lines and 3 invalid lines' % (
                 len(CALLS), depth, len([1 for n, f in CALLS if n not in NOT_PROBES]), new_at, pi.n, cache_configs(), len(CORPUS_ALL)))
     return core.finish('C12', tier, seed, t0, part, rule, level='model_checking', exhaustive=True,
